@@ -127,6 +127,21 @@ def geometry(ck):
     if same_dom:
         ck.prove("%s.throw/post.mask" % qn, hy, sp.Equivalent(beta.dom, kept_spec), search=lambda: native_geometry(ck),
                  clause="an instant is kept exactly when the source nadir angle is below the horizon nadir angle (occulted by the Earth) and beta < min(42 deg, beta(alpha_H - angle_from_limb))")
+        # the same equivalence with the two emergence angles abstracted to free reals (B: the instant's, BL: the limb limit's): what is left is
+        # the logical structure and the 42-degree constant, which the solver decides without any trigonometry -- a ceiling that is not
+        # exactly 42 deg has a model with B between the two values
+        both = sp.And(beta.dom, kept_spec)
+        apps = sorted((f for f in both.atoms(sp.Function) if not isinstance(f, (sp.Min, sp.Max))), key=lambda f: -len(str(f)))
+        rep = {}
+        code_abs, spec_abs = beta.dom, kept_spec
+        for f in apps:  # outermost (longest) first, the same fresh value for the same term on both sides
+            if f in code_abs.atoms(sp.Function) or f in spec_abs.atoms(sp.Function):
+                rep[f] = sp.Symbol("angle%d" % len(rep), real=True)
+                code_abs, spec_abs = code_abs.xreplace({f: rep[f]}), spec_abs.xreplace({f: rep[f]})
+        left = [f for f in (code_abs.atoms(sp.Function) | spec_abs.atoms(sp.Function)) if not isinstance(f, (sp.Min, sp.Max))]
+        if not left and rep:
+            ck.prove("%s.throw/post.mask.ceiling" % qn, [sp.Ge(v_, -sp.pi) for v_ in rep.values()] + [sp.Le(v_, sp.pi) for v_ in rep.values()], sp.Equivalent(code_abs, spec_abs), search=lambda: native_geometry(ck),
+                     clause="with every angle taken as a free value: kept <=> occulted and beta < min(42 deg exactly, limb limit)")
         for nm, arr in (("theta", theta), ("path_len", L), ("times", vt)):
             ck.prove("%s.__call__/post.rows[%s]" % (qn, nm), hy, sp.Equivalent(arr.dom, beta.dom), search=lambda: native_geometry(ck),
                      clause="column %s has exactly the rows of the kept instants (same order)" % nm)
@@ -320,7 +335,8 @@ def native_dark(ck, model=None):
 
     n = 0
     designs = [(0.0, np.radians(-12.0), np.radians(90.0)), (np.radians(-6.0), np.radians(-18.0), np.radians(150.0)), (np.radians(10.0), np.radians(-12.0), np.radians(30.0)),
-               (np.radians(20.0), np.radians(0.0), np.radians(120.0)), (0.0, np.radians(8.0), np.radians(90.0)), (np.radians(-3.0), np.radians(89.0), np.radians(60.0))]  # the last two: Sun limit above the horizon
+               (np.radians(20.0), np.radians(0.0), np.radians(120.0)), (0.0, np.radians(8.0), np.radians(90.0)), (np.radians(-3.0), np.radians(89.0), np.radians(60.0)),  # the last two: Sun limit above the horizon
+               (np.radians(-5.0), np.radians(-12.0), 0.0), (0.0, 0.0, 0.0)]  # thresholds that are exactly zero (minimum phase angle 0: the Moon never vetoes)
     for moon_cut, sun_cut, phase in designs:
         cfg = native_config(moon_cut=moon_cut, sun_cut=sun_cut, phase=phase)
         t = ToOEvent(cfg)
